@@ -202,8 +202,20 @@ for _p, _h in (("C03", "PointCharge"), ("C05", "Evals"), ("C06", "Density"), ("C
                                   "the symbolic arrays all report float64")
 
 # the coordinate-type tag (and its short spellings) selects the route of every public wrapper
-for _p in ("C01", "C03", "C09", "C19"):
+# - a dependency of every property that is stated for "Cartesian, spherical and mixed bases" (the wrappers dispatch on the tag the
+# setter stored), so its contract is discharged with each of them
+for _p in ("C01", "C02", "C03", "C04", "C05", "C06", "C07", "C08", "C09", "C11", "C12", "C13", "C14", "C15", "C16", "C17", "C19", "C20"):
     CHECKS[_p].harnesses.append("contracts.overlap:ShellSetters")
+
+# the public evaluation entry points (dispatch on the coordinate types, one-index assembly, block routines, orbital-derivative kernel)
+# are what every property about densities and density-derived fields calls first: their contracts are re-discharged with each
+EVAL_CHAIN = ["contracts.dispatch:Dispatch", "contracts.assembly:OneIndex", "contracts.deriv:EvalBlocks", "contracts.deriv:GeneralKernel@quick"]
+for _p in ("C05", "C06", "C12", "C13", "C15", "C16"):
+    for _h in EVAL_CHAIN:
+        if _h not in CHECKS[_p].harnesses and _h.split("@")[0] not in CHECKS[_p].harnesses:
+            CHECKS[_p].harnesses.append(_h)
+# a parsed basis is the argument of the next import call: frame clauses on it (bounded, generated files)
+CHECKS["C19"].harnesses.append("contracts.importers:ParserRoundTrip@quick")
 
 # the contracts assumed on scipy.special by the symbolic runs, checked (bounded) on the reachable argument range
 for _p in ("C01", "C05", "C10"):
